@@ -43,7 +43,8 @@ def consume_c04(ctx, lines, results):
             if res["crash"] == "hang":
                 # which value was handed in is accidental: one signature per operation for "does not return"
                 sjson = json.dumps(case.get("s") or {})
-                sig.update(arg_class="any", frame="", kind_at_fault="scope" if '"kind": "scope"' in sjson else sig["kind_at_fault"])
+                sig.update(arg_class="deep_wellformed" if "DEEP0" in sjson else "any", frame="",
+                           kind_at_fault="scope" if '"kind": "scope"' in sjson else sig["kind_at_fault"])
             elif "stack overflow" in res.get("detail", "") or "goroutine stack exceeds" in res.get("detail", ""):
                 # the frame on top when the limit is hit, and the position of the runaway schema, are accidental:
                 # one signature per operation for "the recursion does not end"
@@ -117,8 +118,8 @@ def run(ctx):
     # vectors over chains of single-property objects (scope root id LOOP...): "does not return" is a possible
     # outcome there, so they get their own run with a short per-case bound (a hang then costs seconds, and the
     # supervisor attributes it to exactly that case and re-runs it alone twice)
-    loops = [l for l in lines if "LOOP0" in l]
-    rest = [l for l in lines if "LOOP0" not in l]
+    loops = [l for l in lines if "LOOP0" in l or "DEEP0" in l]
+    rest = [l for l in lines if "LOOP0" not in l and "DEEP0" not in l]
     rpath, lpath = os.path.join(ctx.tmp, "vec-c04-rest.ndjson"), os.path.join(ctx.tmp, "vec-c04-loops.ndjson")
     for pth, ls in ((rpath, rest), (lpath, loops)):
         with open(pth, "w") as f:
@@ -140,7 +141,14 @@ def run(ctx):
         dres = base.run_driver(ctx, dpath, tag, jobs=jobs, case_timeout="300s")
         consume_c04(ctx, [json.dumps(c) for c in dcases], dres)
         ctx.traces += len(dcases)
-    ctx.extra["deep_nesting_cases"] = len(light) + len(heavy)
+    # schemas that recurse through a list / a map with WELL-FORMED values nested 16..64 levels: every operation has to
+    # return within a bound polynomial in the input size - a short per-case bound makes "does not" a verdict (hang)
+    rec = [dict(fam="deep", shape=sh, depth=d, via="direct", bad=False) for sh in ("rec_list", "rec_map") for d in (16, 24, 48, 64)]
+    rpath = os.path.join(ctx.tmp, "deep-rec.ndjson")
+    common.write_ndjson(rpath, rec)
+    consume_c04(ctx, [json.dumps(c) for c in rec], base.run_driver(ctx, rpath, "deep-rec", jobs=len(rec), case_timeout="2s"))
+    ctx.traces += len(rec)
+    ctx.extra["deep_nesting_cases"] = len(light) + len(heavy) + len(rec)
     ctx.sample(heavy[-1])
 
     # code -> spec: random schemas / values (trace lines validated by SchemaTrace) and hostile values
